@@ -248,7 +248,8 @@ class _ErrBody(io.BytesIO):
 
 
 FAULT_KINDS = [("http", 401), ("http", 404), ("http", 429), ("http", 500), ("http", 503),
-               ("url", None), ("badjson", None), ("status", 500), ("status", 300), ("status", None)]
+               ("url", None), ("badjson", None), ("status", 500), ("status", 300), ("status", None),
+               ("nofield", None)]
 
 
 class Transport:
@@ -309,7 +310,12 @@ class Transport:
             raise self._http_error(url, code, "injected")
         if k == "url":
             raise URLError("injected: connection refused")
-        if k == "badjson":
+        if k == "nofield":
+            # token endpoint / site lookup answer 200 with an object that lacks the wanted member
+            if not (url.startswith("https://login.") or url.endswith(":/sites/TeamX")):
+                self.ctx.assume(False)       # for a listing page that is a legitimate empty answer
+            r = Resp(200, b'{"error": "temporarily_unavailable", "id": null, "access_token": ""}')
+        elif k == "badjson":
             r = Resp(200, b'{"value": [ {"id": "x", "file": ', legacy=False)
         else:
             r = Resp(code, b'{"error": "injected"}', legacy=(code is None))
@@ -537,8 +543,8 @@ def _k1_parts(tier):
     out = []
     if tier == "quick":
         for v in K1_VARIANTS:
-            out += [{"api": v, "page": p, "slots": 2, "depth": 3, "budget": 4} for p in (1, 2)]
-        out += [{"api": "all", "page": p, "slots": 3, "depth": 2, "budget": 4} for p in (1, 2, 3)]
+            out += [{"api": v, "page": p, "slots": 2, "depth": 3, "budget": 5} for p in (1, 2)]
+        out += [{"api": v, "page": p, "slots": 3, "depth": 2, "budget": 4} for v in ("all", "ext") for p in (1, 2, 3)]
     else:
         for v in K1_VARIANTS:
             out += [{"api": v, "page": p, "slots": 2, "depth": 3, "budget": 6} for p in (1, 2)]
@@ -783,3 +789,327 @@ def _k2_parts(tier):
     b = 2 if tier == "quick" else 3
     out += [{"lib": "sym", "api": a, "page": p, "budget": b} for a in ("all", "folder") for p in (1, 2)]
     return out
+
+
+# ---------------------------------------------------------------------------------------
+# K3 FileFilter.matches with abstract instants, symbolic names/extensions, abstract fnmatch
+# ---------------------------------------------------------------------------------------
+
+class Inst:
+    """abstract instant: a point on a totally ordered time line (what the filter compares)"""
+
+    def __init__(self, t):
+        self.t = t
+
+    def __lt__(self, o):
+        return self.t < o.t
+
+    def __le__(self, o):
+        return self.t <= o.t
+
+    def __gt__(self, o):
+        return self.t > o.t
+
+    def __ge__(self, o):
+        return self.t >= o.t
+
+    def __eq__(self, o):
+        return isinstance(o, Inst) and self.t == o.t
+
+    __hash__ = None
+
+
+BOUND_NAMES = ("created_after", "created_before", "modified_after", "modified_before")
+K3_PARENTS = [None, "", "P", "P/Q r"]
+K3_EXTS = [[], [".pdf"], [".TXT", ".Docx"]]
+
+
+def _z(v):
+    return v.z if isinstance(v, (S.SymInt, S.SymBool)) else v
+
+
+def _low(c):
+    return z3.If(z3.And(c >= 65, c <= 90), c + 32, c)
+
+
+def _ext_ok(ctx, name, exts, case_sensitive=False):
+    """property text: extension match is case-insensitive (ASCII letters)"""
+    if not exts:
+        return True
+    if ctx.concrete or isinstance(name, str):
+        return any(name.lower().endswith(e.lower()) for e in exts)
+    conds = []
+    f = (lambda c: c) if case_sensitive else _low
+    for e in exts:
+        n, m = len(name.c), len(e.c)
+        if m > n:
+            continue
+        cs = [f(_z(name.c[n - m + j])) == f(_z(e.c[j])) for j in range(m)]
+        conds.append(z3.And(*cs) if cs else z3.BoolVal(True))
+    return z3.Or(*conds) if conds else z3.BoolVal(False)
+
+
+def k3_matches(ctx):
+    cm = _cm()
+    P = ctx.params
+    mask, mode = P["bounds"], P["mode"]
+    sym = not ctx.concrete
+
+    def instant(t):
+        return Inst(t) if sym else T0 + timedelta(seconds=t)
+
+    bounds_t = {}
+    for bit, nm in enumerate(BOUND_NAMES):
+        bounds_t[nm] = ctx.fresh_int(nm, 0, 9) if (mask >> bit) & 1 else None
+    parse_table = {}
+    fields = {}
+    for bit, nm in ((0, "created"), (2, "modified")):
+        if (mask >> bit) & 3:
+            kind = ctx.choice(nm + "_state", 4)     # absent / empty / unparseable / an instant
+        else:
+            kind = (0, 3)[ctx.choice(nm + "_state", 2)]   # no bound on it: must not matter
+        t = ctx.fresh_int("t_" + nm, 0, 9) if kind == 3 else None
+        if kind == 3:
+            text = f"@instant:{nm}" if sym else _iso(T0 + timedelta(seconds=t))
+            parse_table[text] = Inst(t)
+        else:
+            text = [None, "", "yesterday-ish"][kind]
+        fields[nm] = (kind, t, text)
+    real_parse = cm._parse_iso_datetime
+
+    def parse(s):
+        return parse_table[s] if s in parse_table else real_parse(s)
+
+    calls = []
+    answers = []
+    if mode == "ext":
+        name = ctx.fresh_chars("name", P["name_len"], 1, 127)
+        exts = [ctx.fresh_chars(f"ext{i}", n, 1, 127) for i, n in enumerate(P["ext_lens"])]
+        pats, parent = [], K3_PARENTS[1]
+    else:
+        name = NAMES[ctx.choice("name", 2)]
+        exts = K3_EXTS[ctx.choice("exts", len(K3_EXTS))]
+        parent = K3_PARENTS[ctx.choice("parent", len(K3_PARENTS))]
+        pats = [f"pattern-{i}" for i in range(ctx.choice("n_patterns", 3))]
+        answers = [ctx.fresh_bool(f"fnmatch_says{i}") for i in range(len(pats))]
+
+    class FnStub:
+        """fnmatch as an uninterpreted predicate of the pattern (arguments recorded)"""
+        @staticmethod
+        def fnmatch(path, pattern):
+            calls.append((path, pattern))
+            return answers[pats.index(pattern)]
+
+    flt = cm.FileFilter(extensions=list(exts), path_patterns=list(pats),
+                        **{nm: (None if t is None else instant(t)) for nm, t in bounds_t.items()})
+    meta = cm.SharePointFileMetadata(name=name, id="f1", web_url="", created=fields["created"][2],
+                                     last_modified=fields["modified"][2], parent_path=parent)
+    with ctx.shadow(cm, _parse_iso_datetime=parse), ctx.stub(cm, fnmatch=FnStub if mode == "pat" else cm.fnmatch):
+        try:
+            got = flt.matches(meta)
+        except Exception as e:
+            got = None
+            ctx.fail("matches-raised", exc=type(e).__name__, msg=str(e)[:120])
+    ctx.require(got is True or got is False, "matches-not-bool", got=repr(got))
+    # ---- oracle -------------------------------------------------------------------------------
+    pt = ctx.perturb
+    conj = []
+    for after, before, nm in (("created_after", "created_before", "created"),
+                              ("modified_after", "modified_before", "modified")):
+        a, b = bounds_t[after], bounds_t[before]
+        kind, t, _ = fields[nm]
+        if a is None and b is None:
+            continue
+        if kind != 3:
+            conj.append(False)
+            continue
+        if a is not None:
+            conj.append(_z(t > a) if pt == "after_exclusive" else _z(t >= a))
+        if b is not None:
+            conj.append(_z(t <= b) if pt == "before_inclusive" else _z(t < b))
+    conj.append(_ext_ok(ctx, name, exts, case_sensitive=(pt == "ext_case_sensitive")))
+    if pats:
+        conj.append(any(answers) if ctx.concrete else z3.Or(*[_z(a) for a in answers]))
+    if ctx.concrete:
+        expected = all(bool(c) for c in conj)
+        ctx.require(expected == got, "filter-verdict-differs-from-spec", got=got, expected=expected)
+    else:
+        zs = [c if z3.is_expr(c) else z3.BoolVal(bool(c)) for c in conj]
+        e = z3.And(*zs) if zs else z3.BoolVal(True)
+        ctx.require(e if got else z3.Not(e), "filter-verdict-differs-from-spec", got=got)
+    full = f"{parent}/{name}" if parent else name
+    if pt == "pattern_on_name":
+        full = name
+    for path, _ in calls:
+        ctx.require(path == full, "pattern-not-applied-to-full-path", got=path, expected=full)
+
+
+def _k3_parts(tier):
+    out = [{"mode": "pat", "bounds": m} for m in range(16)]
+    shapes = [(5, [4]), (5, [2, 4]), (3, [4, 3])] if tier == "quick" else \
+        [(5, [4]), (6, [2, 4]), (3, [4, 3]), (6, [5, 5]), (8, [4, 5, 3]), (4, [0, 4])]
+    for n, el in shapes:
+        out += [{"mode": "ext", "bounds": m, "name_len": n, "ext_lens": el} for m in (0, 6, 15)]
+    return out
+
+
+# ---------------------------------------------------------------------------------------
+# K3b date bounds through the public filtered listing, real timestamp lexemes
+# ---------------------------------------------------------------------------------------
+
+FRACTIONS = [("", 0), (".5", 500000), (".25", 250000), (".123", 123000), (".999999", 999999),
+             (".7500000", 750000)]                     # Graph sends up to 7 fractional digits
+ZONES = [("Z", 0), ("+00:00", 0), ("+02:00", 120), ("-05:00", -300)]
+DELTAS_US = [-1000000, -500000, -250000, -1, 0, 1, 250000, 500000, 1000000]
+
+
+def k3b_bounds(ctx):
+    cm = _cm()
+    frac, frac_us = FRACTIONS[ctx.choice("fraction", len(FRACTIONS))]
+    zone, zone_min = ZONES[ctx.choice("zone", len(ZONES))]
+    which = BOUND_NAMES[ctx.choice("bound", 4)]
+    delta = DELTAS_US[ctx.choice("bound_minus_file_time", len(DELTAS_US))]
+    text = "2024-03-01T12:00:01" + frac + zone
+    # the instant the lexeme names (ISO 8601): wall clock minus offset, fraction included
+    true = datetime(2024, 3, 1, 12, 0, 1, tzinfo=timezone.utc) - timedelta(minutes=zone_min) \
+        + timedelta(microseconds=frac_us)
+    bound = true + timedelta(microseconds=delta)
+    lib = Library(ctx, preset=[("f",)])
+    node = lib.children(lib.root)[0]
+    node.created = node.modified = text
+    tr = Transport(ctx, lib, 2)
+    client = _client(tr)
+    try:
+        got = list(client.list_files_filtered(cm.FileFilter(**{which: bound})))
+    except Exception as e:
+        got = None
+        ctx.fail("healthy-listing-raised", exc=repr(e)[:160])
+    if which.endswith("_after"):
+        want = true >= bound          # inclusive
+        if ctx.perturb == "after_exclusive":
+            want = true > bound
+    else:
+        want = true < bound           # exclusive
+    info = dict(timestamp=text, bound=bound.isoformat(), which=which, listed=len(got))
+    if want:
+        ctx.require(len(got) == 1, "matching-file-missing", **info)
+    else:
+        ctx.require(len(got) == 0, "non-matching-item-listed", **info)
+
+
+# ---------------------------------------------------------------------------------------
+# kernels
+# ---------------------------------------------------------------------------------------
+
+def _t_walk():
+    c = _cm().SharePointRestClient
+    return [c.list_all_files, c.list_files_filtered, c._walk_and_filter, c._get_folder_by_path,
+            c._walk_drive_items, c._get_folders_from_url, c._list_items_paginated, c._parse_file_item,
+            c._extract_custom_fields, c._build_children_url, c.get_site_id, c.fetch_access_token,
+            c._get_json, c._send, _cm().FileFilter.matches, _cm()._parse_iso_datetime]
+
+
+def _t_items():
+    c = _cm().SharePointRestClient
+    return [c._walk_drive_items, c._get_folders_from_url, c._list_items_paginated, c._parse_file_item,
+            c._extract_custom_fields]
+
+
+def _t_filter():
+    cm = _cm()
+    return [cm.FileFilter.matches, cm.SharePointFileMetadata.get_full_path, cm._parse_iso_datetime]
+
+
+_TRANSPORT_STUB = ("request_func -> fake Graph transport serving the harness's library model (token endpoint, site "
+                   "lookup, children listings with opaque @odata.nextLink, path lookups; unknown URLs, children of "
+                   "non-folders, wrong bearer token answer 4xx)")
+
+KERNELS = [
+    Kernel("K1", "list_all_files / list_files_filtered == reference walk of a symbolic library (exactly once, "
+                 "parent paths, filters, paging)",
+           k1_walk, targets=_t_walk, parts=_k1_parts,
+           perturb=[("parent_is_leaf_name", {"api": "all", "page": 2, "slots": 2, "depth": 3, "budget": 3}),
+                    ("folders_listed", {"api": "none", "page": 1, "slots": 2, "depth": 3, "budget": 3})],
+           stubs=[_TRANSPORT_STUB,
+                  "client.json -> pass-through for pages that carry symbolic items (symbolic runs only; replay "
+                  "sends real JSON bytes through the real json.loads)"],
+           symbolic=["file facet and folder facet of every drive item (the client's own '\"folder\" in item' / "
+                     "'\"file\" in item' tests fork on them)", "page size"],
+           choices=["number of members per folder (library generated lazily while the client walks it, "
+                    "<= budget members in total)", "member is a JSON object or not", "filter / API variant (per part)"],
+           assumptions=["a drive item is a file, a folder or neither - never both (Graph driveItem facets)",
+                        "drive items carry id and name; every other field may be missing",
+                        "folder_paths are drive-root relative without leading/trailing slash (as documented)"],
+           outside=["URL quoting against the real Graph service (the fake transport unquotes with urllib)",
+                    "libraries beyond the stated slots/depth/budget", "real HTTP"],
+           bounds={"quick": {"max_page": 3}, "thorough": {"max_page": 3}},
+           timeout={"quick": 200, "thorough": 1500}),
+    Kernel("K1b", "classification of page members whose member NAMES are symbolic strings",
+           k1b_items, targets=_t_items, parts=_k1b_parts,
+           perturb=[("file_wins", {"lens": [4, 6]})],
+           stubs=["client._get_json -> pages built by the harness", "client._build_children_url -> short tokens"],
+           symbolic=["every character of the (<= 2) member names of one page member, lengths 2/4/6/8 "
+                     "(id, file, name, size, folder, webUrl, listItem all reachable)"],
+           choices=["member values (string / object / number)", "non-object members", "one or two pages",
+                    "answer without 'value'", "parent path"],
+           assumptions=["member names of one JSON object are distinct"],
+           outside=["objects with more than 2 members; names outside '@'..'z'"]),
+    Kernel("K2", "fault at a symbolic request index: client-family error with status/URL, all responses closed, "
+                 "retry on the healthy transport complete",
+           k2_faults, targets=_t_walk, parts=_k2_parts,
+           perturb=[("nothing_closed", {"lib": "a", "api": "all", "page": 1}),
+                    ("status_plus_one", {"lib": "a", "api": "all", "page": 1})],
+           stubs=[_TRANSPORT_STUB + " + one injected fault"],
+           symbolic=["index of the failing request (compared with the running request counter at every request)",
+                     "item facets in the 'sym' scenarios"],
+           choices=["fault kind: HTTPError 401/404/429/500/503, URLError, truncated JSON with status 200, "
+                    "status 500 / 300 / None without exception, 200 answer of token endpoint / site lookup without the "
+                    "wanted member", "library preset or symbolic library, API variant, page size"],
+           assumptions=["a 404 answer to a folder path lookup means 'no such folder' (protocol), not a failed request"],
+           outside=["exceptions raised by response.read(), time-outs raised as bare OSError, well-formed JSON of the "
+                    "wrong shape: not among the fault kinds the property lists",
+                    "close() of the body carried by an HTTPError (not a response handed out by the transport)"],
+           timeout={"quick": 200, "thorough": 1500}),
+    Kernel("K3", "FileFilter.matches == (after <= t < before) & extension (case-insensitive) & pattern on full path",
+           k3_matches, targets=_t_filter, parts=_k3_parts,
+           perturb=[("before_inclusive", {"mode": "pat", "bounds": 15}),
+                    ("after_exclusive", {"mode": "pat", "bounds": 15}),
+                    ("pattern_on_name", {"mode": "pat", "bounds": 0}),
+                    ("ext_case_sensitive", {"mode": "ext", "bounds": 0, "name_len": 5, "ext_lens": [4]})],
+           stubs=["client._parse_iso_datetime -> abstract instant for the harness's timestamps (symbolic runs; replay "
+                  "uses real ISO strings and the real parser)",
+                  "client.fnmatch -> uninterpreted predicate of the pattern, arguments recorded (mode pat)"],
+           symbolic=["all four bounds and both file instants as integers on a time line",
+                     "every character of the file name and of each extension (mode ext)",
+                     "fnmatch's answer per pattern"],
+           choices=["which bounds are set (per part)", "created/modified absent, empty, unparseable or an instant",
+                    "parent path absent/empty/one/two segments", "number of patterns"],
+           assumptions=["filter bounds and file timestamps are timezone-aware (as in the documented examples)",
+                        "ASCII names/extensions (str.lower beyond ASCII not modelled)"],
+           outside=["fnmatch's own glob semantics"]),
+    Kernel("K3b", "date bounds through list_files_filtered on real timestamp lexemes (fractions, zones)",
+           k3b_bounds, targets=lambda: [_cm()._parse_iso_datetime, _cm().FileFilter.matches,
+                                        _cm().SharePointRestClient.list_files_filtered],
+           strength="structure", core=False, perturb=["after_exclusive"],
+           stubs=[_TRANSPORT_STUB],
+           choices=["fraction lexeme (none, .5, .25, .123, .999999, .7500000)", "zone lexeme (Z, +00:00, +02:00, -05:00)",
+                    "which bound", "bound minus file instant in {0, +-1us, +-0.25s, +-0.5s, +-1s}"]),
+]
+
+META = {
+    "level_text": "The real SharePointRestClient runs against a fake Graph transport that serves a library model "
+                  "generated while the client walks it; every drive item's file/folder facets are symbolic, so the "
+                  "client's own membership tests split the libraries and z3 decides each split. On every feasible path "
+                  "(all libraries within the slots/depth/budget bound x page sizes x ten API/filter variants) the "
+                  "listing is compared with a reference walk: every matching file once, nothing else, correct parent "
+                  "and full path. Item classification is repeated on objects whose member names are symbolic strings; "
+                  "FileFilter.matches is decided against a reference predicate over abstract instants, symbolic "
+                  "names/extensions and an uninterpreted fnmatch; faults are injected at a symbolic request index for "
+                  "ten fault kinds, checking the exception family/status/URL, close() on every response and a complete retry.",
+    "level_note": "Trusted: the fake transport's reading of the Graph protocol (opaque nextLink, 404 for unknown "
+                  "paths), urllib's quote/unquote. Bounds: <= 4 (thorough 6) members per library, depth <= 3, page size "
+                  "1..3, <= 2 symbolic member names per object, names/extensions <= 8 ASCII characters.",
+    "technique": "symbolic execution of the client methods on proxy drive items (symrun), lazy symbolic environment "
+                 "model behind request_func, per-path SMT queries against reference walk / reference predicate, "
+                 "fault index as a solver-decided comparison",
+}
